@@ -17,9 +17,39 @@ let show_obs = function
   | OList l -> "l" ^ String.concat "," (List.map (fun v -> string_of_int (int_of_n v)) l)
   | OPanic -> "P"
 
+(* observations of the other containers: "<result>|<drop log>" (the drop log is omitted by the
+   harness for calls that cannot drop) *)
+let show_list l = "l" ^ String.concat "," (List.map (fun v -> string_of_int (int_of_n v)) l)
+let show_err = function
+  | EExceedsCapacity -> "eCap" | EOutOfBounds -> "eOob" | EInvalidCharacter -> "eChr"
+  | EKeyExists -> "eDup" | EIsFull -> "eFull"
+let show_o = function
+  | OUnit -> "ok" | OErr e -> show_err e
+  | OB true -> "b1" | OB false -> "b0"
+  | OO None -> "n" | OO (Some v) -> "s" ^ string_of_int (int_of_n v)
+  | ON v -> "u" ^ string_of_int (int_of_n v)
+  | OL l -> show_list l
+  | OP -> "P"
+let show_od impl (o, d) =
+  if o = OP then "P" else if String.contains impl '|' then show_o o ^ "|" ^ show_list d else show_o o
+let parse_list s =
+  if s = "-" || s = "" then [] else List.map (fun x -> n_of_int (int_of_string x)) (String.split_on_char ',' s)
+
 type st =
   | SNone
   | SQueue of rq * sq
+  | SVec of vec * svec
+  | SStr of str * sstr
+  | SMap of slotmap * smap
+  | SFlat of slotmap * fmap
+
+let parse_vop name args =
+  let a k = n_of_int (int_of_string (List.nth args k)) in
+  match name with
+  | "push" -> VPush (a 0) | "pop" -> VPop | "insert" -> VInsert (a 0, a 1) | "remove" -> VRemove (a 0)
+  | "clear" | "drop" -> VClear | "truncate" -> VTruncate (a 0) | "resize" -> VResize (a 0, a 1)
+  | "extend" -> VExtend (parse_list (List.nth args 0)) | "len" -> VLen | "slice" -> VSlice
+  | _ -> failwith ("unknown vec op " ^ name)
 
 let parse_qop name args =
   let a k = n_of_int (int_of_string (List.nth args k)) in
@@ -27,6 +57,38 @@ let parse_qop name args =
   | "push" -> QPush (a 0) | "pusho" -> QPushOverflow (a 0) | "pop" -> QPop | "peek" -> QPeek
   | "get" -> QGet (a 0) | "clear" | "drop" -> QClear | "len" -> QLen
   | _ -> failwith ("unknown queue op " ^ name)
+
+let parse_sop name args =
+  let a k = n_of_int (int_of_string (List.nth args k)) in
+  let l k = parse_list (List.nth args k) in
+  match name with
+  | "push" -> SPush (a 0) | "pushb" -> SPushBytes (l 0) | "insert" -> SInsert (a 0, a 1)
+  | "insertb" -> SInsertBytes (a 0, l 1) | "pop" -> SPop | "remove" -> SRemove (a 0)
+  | "remover" -> SRemoveRange (a 0, a 1) | "retain" -> SRetain (l 0) | "find" -> SFind (l 0)
+  | "rfind" -> SRfind (l 0) | "stripp" -> SStripPrefix (l 0) | "strips" -> SStripSuffix (l 0)
+  | "truncate" -> STruncate (a 0) | "clear" -> SClear | "bytes" -> SBytes | "nul" -> SNul | "len" -> SLen
+  | _ -> failwith ("unknown str op " ^ name)
+
+let parse_mop name args =
+  let a k = n_of_int (int_of_string (List.nth args k)) in
+  match name with
+  | "insert" -> MInsert (a 0) | "insertat" -> MInsertAt (a 0, a 1) | "remove" -> MRemove (a 0)
+  | "get" -> MGet (a 0) | "contains" -> MContains (a 0) | "nextfree" -> MNextFree | "iter" -> MIter
+  | "len" -> MLen | "drop" -> MDrop
+  | _ -> failwith ("unknown slotmap op " ^ name)
+let parse_fop name args =
+  let a k = n_of_int (int_of_string (List.nth args k)) in
+  match name with
+  | "insert" -> FInsert (a 0, a 1) | "get" -> FGet (a 0) | "getref" -> FGetRef (a 0) | "remove" -> FRemove (a 0)
+  | "contains" -> FContains (a 0) | "keys" -> FKeys | "len" -> FLen | "drop" -> FDrop
+  | _ -> failwith ("unknown flatmap op " ^ name)
+(* "<res>|l<list>" with the list sorted (by the extracted sortN): order-insensitive comparison *)
+let sort_drops s =
+  match String.index_opt s '|' with
+  | None -> s
+  | Some i ->
+    let l = String.sub s (i + 2) (String.length s - i - 2) in
+    String.sub s 0 i ^ "|" ^ show_list (sortN (parse_list l))
 
 let () =
   let st = ref SNone in
@@ -37,6 +99,16 @@ let () =
   let distinct_nontrivial = ref 0 in
   let opcount = Hashtbl.create 64 in
   let dead = ref false in
+  let spec_dead = ref false in
+  (* printing only: at most 3 MISMATCH lines per (kind, container, op name, panicked?) signature
+     so that a frequent difference cannot crowd a rare one out of the report; all are counted *)
+  let printed = Hashtbl.create 64 in
+  let prev_name = ref "" in
+  let report kind k impl text =
+    let sg = kind ^ k ^ (if impl = "P" then "P" else "") ^ "/" ^ !prev_name in
+    let n = try Hashtbl.find printed sg with Not_found -> 0 in
+    Hashtbl.replace printed sg (n + 1);
+    if n < 3 then print_string text in
   let flush_case () =
     if Buffer.length cur_case > 0 then begin
       let key = Digest.string (Buffer.contents cur_case) in
@@ -50,12 +122,18 @@ let () =
       let toks = List.filter (fun s -> s <> "") (String.split_on_char ' ' line) in
       match toks with
       | "C" :: kind :: flavour :: elk :: cap :: _ ->
-        flush_case (); incr case_no; op_no := 0; dead := false;
+        flush_case (); incr case_no; op_no := 0; dead := false; spec_dead := false; prev_name := "";
         (* the case key deliberately excludes the storage flavour: distinct = distinct histories *)
         Buffer.add_string cur_case (kind ^ " " ^ cap ^ "|");
         let c = n_of_int (int_of_string cap) in
         (match kind with
          | "queue" -> st := SQueue (rq_new c, sq_new c)
+         | "vec" -> st := SVec (vec_new c, svec_new c)
+         | "slotmap" -> st := SMap (sm_new c, smap_new c)
+         | "flatmap" -> st := SFlat (sm_new c, fmap_new c)
+         | "str" ->
+           let fl = (match flavour with "heap" -> FPoly | "fixed" -> FStatic | "reloc" -> FReloc | _ -> failwith "flavour") in
+           st := SStr (str_new fl c, sstr_new fl c)
          | _ -> failwith ("unknown container " ^ kind))
       | "O" :: name :: rest ->
         incr op_no; incr ops_total;
@@ -63,7 +141,7 @@ let () =
         let (args, obs) = split [] rest in
         let impl = match obs with o :: _ -> o | [] -> "?" in
         Buffer.add_string cur_case (name ^ " " ^ String.concat " " args ^ ";");
-        let k = (match !st with SQueue _ -> "queue." | SNone -> "?.") ^ name in
+        let k = (match !st with SQueue _ -> "queue." | SVec _ -> "vec." | SStr _ -> "str." | SMap _ -> "slotmap." | SFlat _ -> "flatmap." | SNone -> "?.") ^ name in
         Hashtbl.replace opcount k (1 + try Hashtbl.find opcount k with Not_found -> 0);
         if not !dead then begin
           match !st with
@@ -82,6 +160,60 @@ let () =
             if impl = "P" || om <> impl then dead := true;
             st := SQueue (q', s')
           | SNone -> failwith "op before case"
+          | _ ->
+            (* generic path: (model observation, spec observation, stored something, next state) *)
+            let impl_spec = ref impl in
+            let (om, os, stored, st') = (match !st with
+              | SVec (v, sp) ->
+                let o = parse_vop name args in
+                let ((v', ob), d) = vec_step v o in
+                let ((sp', sob), sd) = svec_step sp o in
+                (show_od impl (ob, d), show_od impl (sob, sd),
+                 (match o with VPush _ | VInsert _ | VResize _ | VExtend _ -> ob = OUnit | _ -> false),
+                 SVec (v', sp'))
+              | SStr (m, sp) ->
+                let o = parse_sop name args in
+                let (m', ob) = str_step m o in
+                (* the oracle of the property is the reference without the deviations (dev = false) *)
+                let (sp', sob) = sstr_step false sp o in
+                (show_o ob, show_o sob,
+                 (match o with SPush _ | SPushBytes _ | SInsert _ | SInsertBytes _ -> ob = OUnit | _ -> false),
+                 SStr (m', sp'))
+              | SMap (m, sp) ->
+                let o = parse_mop name args in
+                let ((m', ob), d) = sm_step m o in
+                let ((sp', sob), sd) = smap_step false sp o in
+                (* the reference does not fix the order in which container drop releases the values *)
+                let sd = if o = MDrop then (impl_spec := sort_drops impl; sortN sd) else sd in
+                (show_od impl (ob, d), show_od impl (sob, sd),
+                 (match o with MInsert _ -> (match ob with OO (Some _) -> true | _ -> false) | MInsertAt _ -> ob = OB true | _ -> false),
+                 SMap (m', sp'))
+              | SFlat (m, sp) ->
+                let o = parse_fop name args in
+                let ((m', ob), d) = fm_step m o in
+                let ((sp', sob), sd) = fmap_step false sp o in
+                (* order of list_keys and of the drops at container drop: not fixed by the reference *)
+                let (sob, sd) = (match o, sob with
+                  | FDrop, _ -> impl_spec := sort_drops impl; (sob, sortN sd)
+                  | FKeys, OL l when impl <> "P" ->
+                    impl_spec := show_list (sortN (parse_list (String.sub impl 1 (String.length impl - 1)))); (OL (sortN l), sd)
+                  | _ -> (sob, sd)) in
+                (show_od impl (ob, d), show_od impl (sob, sd),
+                 (match o with FInsert _ -> ob = OUnit | _ -> false),
+                 SFlat (m', sp'))
+              | _ -> failwith "unreachable") in
+            if om <> impl then begin
+              incr mm_model;
+              report "model" k impl (Printf.sprintf "MISMATCH case=%d op=%d kind=model prev=%s line=[%s] model=%s impl=%s\n" !case_no !op_no !prev_name line om impl) end;
+            (* after the first difference from the reference its state is no longer meaningful for
+               this case: report that first difference only *)
+            if os <> !impl_spec && not !spec_dead then begin
+              incr mm_spec; spec_dead := true;
+              report "spec" k impl (Printf.sprintf "MISMATCH case=%d op=%d kind=spec prev=%s line=[%s] spec=%s impl=%s\n" !case_no !op_no !prev_name line os impl) end;
+            prev_name := name;
+            if stored then cur_nontrivial := true;
+            if impl = "P" || om <> impl then dead := true;
+            st := st'
         end
       | [] -> ()
       | _ -> failwith ("bad line: " ^ line)
